@@ -27,7 +27,8 @@ ID = "C10"
 PROPS = "Props/C10.v"
 EXTRACT = "extract/ExC10.v"
 OBLIGATION = "merkle-history"
-THEOREMS = ["C10_inv_init", "C10_inv_step", "C10_reachable", "C10_no_stale", "C10_fresh_unique",
+THEOREMS = ["C10_inv_init", "C10_inv_step", "C10_reachable", "C10_no_stale", "C10_path_ops_total",
+            "C10_acyclic_equiv", "C10_acyclic_no_self_reach", "C10_fresh_unique",
             "C10_delete_keeps_other_parent", "C10_no_stale_refuted_old_remove",
             "C10_falsy_hash_refuted_old", "C10_guards_satisfiable"]
 RULE = ("histories of 5-60 operations over <= 12 nodes (generic MerkleNode/MerkleLeaf subclass, and real "
